@@ -57,21 +57,17 @@ mod verif_kani {
         mem::forget(a);
     }
 
-    /// C09 + C10: a keyed periodic action and all its later occurrences observe the same key and period.
+    /// C10: a keyed periodic action and its later occurrences carry the stored period (all Durations).
     #[kani::proof]
-    fn keyed_periodic_next_shares_key() {
+    fn keyed_periodic_next_keeps_period() {
         let p = any_duration();
         let key = ActionKey::new();
         let a = KeyedPeriodicAction::new(|_k: ActionKey| async {}, p, key.clone());
-        assert!(!ActionInner::is_cancelled(&a));
         match ActionInner::next(&a) {
             Some((b, q)) => {
                 assert!(q == p);
-                assert!(!b.is_cancelled());
-                key.cancel();
-                assert!(ActionInner::is_cancelled(&a) && b.is_cancelled());
                 match b.next() {
-                    Some((c, q2)) => { assert!(q2 == p); assert!(c.is_cancelled()); mem::forget(c); }
+                    Some((c, q2)) => { assert!(q2 == p); mem::forget(c); }
                     None => assert!(false),
                 }
                 mem::forget(b);
@@ -79,17 +75,49 @@ mod verif_kani {
             None => assert!(false),
         }
         mem::forget(a);
+        mem::forget(key);
     }
 
-    /// C09 + C10: one-shot actions have no next occurrence; the keyed one follows its key.
+    /// C09: a keyed periodic action and all its later occurrences observe the same key.
+    #[kani::proof]
+    fn keyed_periodic_next_shares_key() {
+        let p = any_duration();
+        let key = ActionKey::new();
+        let a = KeyedPeriodicAction::new(|_k: ActionKey| async {}, p, key.clone());
+        assert!(!ActionInner::is_cancelled(&a));
+        if let Some((b, _q)) = ActionInner::next(&a) {
+            assert!(!b.is_cancelled());
+            key.cancel();
+            assert!(ActionInner::is_cancelled(&a) && b.is_cancelled());
+            if let Some((c, _q2)) = b.next() {
+                assert!(c.is_cancelled());
+                mem::forget(c);
+            }
+            mem::forget(b);
+        }
+        mem::forget(a);
+    }
+
+    /// C10: one-shot actions have no next occurrence.
     #[kani::proof]
     fn once_actions_have_no_next() {
         let a = OnceAction::new(async {});
         assert!(ActionInner::next(&a).is_none());
-        assert!(!ActionInner::is_cancelled(&a));
         let key = ActionKey::new();
         let b = KeyedOnceAction::new(|_k: ActionKey| async {}, key.clone());
         assert!(ActionInner::next(&b).is_none());
+        mem::forget(a);
+        mem::forget(b);
+        mem::forget(key);
+    }
+
+    /// C09: a one-shot action is never cancelled; the keyed one follows its key.
+    #[kani::proof]
+    fn keyed_once_follows_its_key() {
+        let a = OnceAction::new(async {});
+        assert!(!ActionInner::is_cancelled(&a));
+        let key = ActionKey::new();
+        let b = KeyedOnceAction::new(|_k: ActionKey| async {}, key.clone());
         assert!(!ActionInner::is_cancelled(&b));
         key.cancel();
         assert!(ActionInner::is_cancelled(&b));
@@ -97,16 +125,31 @@ mod verif_kani {
         mem::forget(b);
     }
 
-    /// C09 / C10: Action is a transparent wrapper: is_cancelled and next delegate to the inner action.
+    /// C10: Action is a transparent wrapper: next delegates to the inner action (period kept).
     #[kani::proof]
-    fn action_wrapper_delegates() {
+    fn action_wrapper_delegates_next() {
+        let p = any_duration();
+        let key = ActionKey::new();
+        let a = Action::new(KeyedPeriodicAction::new(|_k: ActionKey| async {}, p, key.clone()));
+        match a.next() {
+            Some((b, q)) => { assert!(q == p); mem::forget(b); }
+            None => assert!(false),
+        }
+        mem::forget(a);
+        mem::forget(key);
+    }
+
+    /// C09: Action is a transparent wrapper: is_cancelled delegates to the inner action.
+    #[kani::proof]
+    fn action_wrapper_delegates_cancel() {
         let p = any_duration();
         let key = ActionKey::new();
         let a = Action::new(KeyedPeriodicAction::new(|_k: ActionKey| async {}, p, key.clone()));
         assert!(!a.is_cancelled());
-        match a.next() {
-            Some((b, q)) => { assert!(q == p); key.cancel(); assert!(a.is_cancelled() && b.is_cancelled()); mem::forget(b); }
-            None => assert!(false),
+        if let Some((b, _q)) = a.next() {
+            key.cancel();
+            assert!(a.is_cancelled() && b.is_cancelled());
+            mem::forget(b);
         }
         mem::forget(a);
     }
